@@ -117,6 +117,25 @@ CLAIMED = {
             "Merkle-Damgard shell (padding, block split, chaining, output encoding).",
             "Digest values are oracle tables (OpenSSL); the RIPEMD compression function itself is uninterpreted.",
             "DESIGN.md section 5 C05"),
+    "C03": ("TLA+ Bip39/Bip32 specs: abstract constructor model (every idempotent normalisation map, TLC) + TLC trace "
+            "validation of seeds and the five constructors with UTF-8 done by the spec and NFKD/PBKDF2/HMAC as oracle tables",
+            "MC_Seed explores two wallet slots filled by arbitrary constructor routes over an abstract text alphabet for every "
+            "idempotent normalisation map: equal normal forms give equal master keys, different ones different keys, the "
+            "xprv route reproduces the key, the network flag is not in the support. Trace_Keys recomputes "
+            "bip39_seed_from_mnemonic (spec-side UTF-8, salt 'mnemonic'||passphrase, 2048 rounds, 64 bytes as the lookup key of "
+            "the PBKDF2 table) for a Unicode corpus, and master key/chain code/xprv for from_mnemonic, from_entropy_hex, "
+            "from_bip39_seed_hex/bytes on both networks; the extended-key route is validated through Import events.",
+            "NFKD is taken from unicodedata; PBKDF2 values from the harness's explicit loop over its own HMAC.",
+            "DESIGN.md section 5 C03"),
+    "C04": ("TLA+ Bip39 spec: TLC exhaustive on a scaled instance (every 8/16-bit entropy x checksum patterns) + TLC trace "
+            "validation of mnemonic_from_entropy at real scale incl. the rejection clause and the pinned word list",
+            "MC_Bip39 enumerates every entropy value of a scaled instance (5-bit words) and checks round trip, word count, "
+            "checksum = leading hash bits, losslessness and rejection of other sizes. Trace_Keys applies the same operators "
+            "with 11-bit words to recorded calls: all five sizes with zero/one/single-bit/leading-zero/random patterns, every "
+            "other length 0..64, malformed and blank-containing hex; the embedded list is checked in TLA+ (2048 entries, "
+            "strict order, unique 4-letter prefixes, SHA-256 equal to the published english.txt digest).",
+            "SHA-256 is an oracle table; hex with blanks may be refused or honoured for the blank-stripped bytes.",
+            "DESIGN.md section 5 C04"),
 }
 
 ALL = ["C%02d" % i for i in range(1, 21)]
